@@ -9,7 +9,7 @@ NORM = "X Rat → X Rat → X Rat"
 
 # ---- Antecedent.activation_degree (C06)
 # env: the evaluation context of the model (`Lang.DegCtx`; its fields `conj` / `disj` are not used: the operators are
-# the parameters `conjunction` / `disjunction`); hasTerms: `len(variable.terms) != 0` by name (truth value of a
+# the parameters `conjunction` / `disjunction`; `env.hasTerms`: `len(variable.terms) != 0` by name, the truth value of a
 # variable object); expression: `self.expression`; node: the parameter `node` (`None` on the call from outside).
 DEGREE_EXT = [
     ("self.expression", "expression", EXPR, True),
@@ -34,11 +34,11 @@ DEGREE_EXT = [
 DEGREE_PROFILE = {
     "name": "Antecedent_activation_degree", "module": "fuzzylite.rule", "object": "Antecedent.activation_degree",
     "file": "CodeDegree",
-    "params": [("env", "Lang.DegCtx Rat"), ("hasTerms", "String → Bool"), ("expression", EXPR),
+    "params": [("env", "Lang.DegCtx Rat"), ("expression", EXPR),
                ("conjunction", f"Option ({NORM})"), ("disjunction", f"Option ({NORM})"), ("node", EXPR)],
     "locals": {"result": "X Rat", "hedge": "String"},
     "ret": "X Rat",
-    "truthy": {EXPR: "{0}.truthy", f"Option {VAR}": "(Py.Deg.varTruthy hasTerms {0})"},
+    "truthy": {EXPR: "{0}.truthy", f"Option {VAR}": "(Py.Deg.varTruthy env.hasTerms {0})"},
     "self_call": "self.activation_degree(_0, _1, _2)", "self_call_params": ["conjunction", "disjunction", "node"],
     "rec_fuel": "Py.Deg.depth expression + Py.Deg.depth node + 1",
     "externals": DEGREE_EXT,
